@@ -262,7 +262,7 @@ func (p *c20) Init(tier string, seed int64) {
 		p.truncOffs = append(p.truncOffs, p.nTrunc)
 		p.nTrunc += (len(s) + 63) / 64 // 64 truncation offsets per case
 	}
-	p.nNamed = 40
+	p.nNamed = len(c20Broken) * 5
 }
 
 func (p *c20) N() int { return p.nPos + p.nInj + p.nTrunc + p.nNamed }
@@ -675,11 +675,33 @@ func anchorList(byKind map[string]map[anchorPos]int, kinds []string) string {
 }
 
 // runNamed: an error raised while loading a named template identifies it by name.
+// c20Broken: one source per way in which the tokeniser or the parser can refuse a template (every tag with a
+// missing or wrong part, every kind of malformed expression), so that every error constructor is exercised.
+var c20Broken = []string{
+	"ok {% if x %} unclosed", "a {{ 1 + }} b", "x {% zork %} y", "{{ 'unclosed }}", "line1\nline2 {% for %}", "{% block b %}", "{{ a @ b }}", "{% include %}",
+	"a\n{% for 1 in b %}x{% endfor %}", "{% for k, 2 in b %}x{% endfor %}", "{% for a in b c %}x{% endfor %}", "{% for a b %}x{% endfor %}", "{% for a in %}x{% endfor %}", "{% for a in b if %}x{% endfor %}",
+	"a {{ x is 2 }}", "{{ x is 'lit' }}", "{{ x is }}", "{{ x is not }}", "{{ a ? b }}", "{{ a ? : }}", "{{ (a }}", "{{ a) }}", "{{ [a }}", "{{ {a: } }}", "{{ {'a' 1} }}", "{{ a[ }}", "{{ a. }}", "{{ a|  }}", "{{ f(a, }}", "{{ a.b( }}",
+	"{{ \"x#{ \" }}", "{{ \"x#{ a b }\" }}", "{{ 1 2 }}", "{{ }}", "{{ a b }}", "{{ not }}", "{{ - }}", "{{ a + * b }}", "{{ a in }}", "{{ .. }}",
+	"{% if %}x{% endif %}", "{% if a %}x{% elseif %}y{% endif %}", "{% if a %}x{% else %}y{% else %}z{% endif %}", "{% if a %}x{% endfor %}", "{% endif %}", "{% else %}",
+	"{% set %}", "{% set 1 = 2 %}", "{% set a = %}", "{% set a %}x", "{% set a b %}", "{% block %}x{% endblock %}", "{% block 1 %}x{% endblock %}", "{% block b %}x{% endblock c %}",
+	"{% extends %}", "{% extends 'a' %}{% extends 'b' %}", "{% include 'a' with %}", "{% include 'a' foo %}", "{% embed %}{% endembed %}", "{% embed 'a' %}{% block b %}x{% endembed %}", "{% embed 'a' %}{% zork %}{% endembed %}",
+	"{% use %}", "{% use 'a' with %}", "{% use 'a' with b %}", "{% use 'a' with b as %}", "{% import %}", "{% import 'a' %}", "{% import 'a' as %}", "{% import 'a' as 1 %}", "{% from 'a' %}", "{% from 'a' import %}", "{% from 'a' import b as %}",
+	"{% macro %}{% endmacro %}", "{% macro m %}{% endmacro %}", "{% macro m( %}{% endmacro %}", "{% macro m(a b) %}{% endmacro %}", "{% macro m(1) %}{% endmacro %}", "{% macro m() %}x",
+	"{% filter %}x{% endfilter %}", "{% filter 1 %}x{% endfilter %}", "{% filter f| %}x{% endfilter %}", "{% filter f %}x", "{% do %}", "{% do 1 2 %}", "{% verbatim %}x", "{# unclosed", "{{ a", "{% if a", "{% if a %}{{ b",
+}
+
 func (p *c20) runNamed(res *fw.Result, j int) {
-	broken := []string{"ok {% if x %} unclosed", "a {{ 1 + }} b", "x {% zork %} y", "{{ 'unclosed }}", "line1\nline2 {% for %}", "{% block b %}", "{{ a @ b }}", "{% include %}"}
+	broken := c20Broken
 	names := []string{"bad.html", "dir/bad.twig", "bad", "a.b.c", "übel.txt"}
 	bsrc := broken[j%len(broken)]
 	bname := names[(j/len(broken))%len(names)]
+	if _, perr := parse.Parse(bsrc); perr == nil {
+		// not refused by the parser (the statement promises rejection for a few kinds only, checked elsewhere):
+		// there is no load error that would have to name the template
+		res.AddClass("named-source-accepted-by-parser")
+		res.Evals++
+		return
+	}
 	via := []string{"direct", "include", "extends", "import", "embed", "use", "from", "nested-include"}
 	for _, v := range via {
 		src := map[string]string{bname: bsrc, "mid": "{% include '" + bname + "' %}"}
@@ -743,7 +765,7 @@ func (p *c20) runNamed(res *fw.Result, j int) {
 }
 
 func (p *c20) Rule() string {
-	return "four workloads. (a) positions: seeded templates in which every name, number, string and text run is unique, spelled with line breaks everywhere (LF, CRLF, blank lines inside tags; newlines inside text, strings, interpolated strings (before and after the interpolation), comments, verbatim bodies; trim markers; both quote kinds; a third of the templates start with a byte order mark, two of them, a NUL, a lone CR, NBSP or a zero-width space as ordinary text); every TextNode, PrintNode, tag node (if/elseif, for, set, block, filter, macro, embed and its blocks, include, import, from, use, do, extends), NameExpr, NumberExpr and StringExpr of the parsed tree must report the (1-based line, 0-based byte column) of its anchor as recorded by the speller (unique content is looked up directly, tag nodes must sit on an anchor of their kind; a string may report its quote or its first content byte). (b) truncation: EVERY byte offset of every injection template and of generated templates: when a reference scanner says the cut is inside a delimiter pair or an open if/for/block/set/filter/macro/embed/verbatim body, parsing the prefix must fail. (c) injection: for each of the 41 tag/expression templates at 3 placements: an illegal character '@' at EVERY token boundary, a surplus literal before EVERY closing delimiter, a stray ')' or ']' at EVERY token boundary where no bracket is open, an unknown tag at EVERY statement position; the source must be rejected (for the stray bracket: if it is rejected) with the error located exactly at the injected token. (d) a broken template (8 kinds of error, 5 names) loaded directly and through include, extends, import, embed, use, from and a nested include in a loop: the error must identify the template by name. Non-trivial (positions) = an anchor on a line >1; the enumerated workloads are distinct by construction."
+	return fmt.Sprintf("four workloads. (a) positions: seeded templates in which every name, number, string and text run is unique, spelled with line breaks everywhere (LF, CRLF, blank lines inside tags; newlines inside text, strings, interpolated strings (before and after the interpolation), comments, verbatim bodies; trim markers; both quote kinds; a third of the templates start with a byte order mark, two of them, a NUL, a lone CR, NBSP or a zero-width space as ordinary text); every TextNode, PrintNode, tag node (if/elseif, for, set, block, filter, macro, embed and its blocks, include, import, from, use, do, extends), NameExpr, NumberExpr and StringExpr of the parsed tree must report the (1-based line, 0-based byte column) of its anchor as recorded by the speller (unique content is looked up directly, tag nodes must sit on an anchor of their kind; a string may report its quote or its first content byte). (b) truncation: EVERY byte offset of every injection template and of generated templates: when a reference scanner says the cut is inside a delimiter pair or an open if/for/block/set/filter/macro/embed/verbatim body, parsing the prefix must fail. (c) injection: for each of the 41 tag/expression templates at 3 placements: an illegal character '@' at EVERY token boundary, a surplus literal before EVERY closing delimiter, a stray ')' or ']' at EVERY token boundary where no bracket is open, an unknown tag at EVERY statement position; the source must be rejected (for the stray bracket: if it is rejected) with the error located exactly at the injected token. (d) a broken template (%d kinds of error - every tag with a missing or wrong part, every kind of malformed expression -, 5 names) loaded directly and through include, extends, import, embed, use, from and a nested include in a loop: the error must identify the template by name. Non-trivial (positions) = an anchor on a line >1; the enumerated workloads are distinct by construction.", len(c20Broken))
 }
 
 func (p *c20) Assumptions() []string {
